@@ -79,12 +79,14 @@ func c04(r *core.Run) {
 	r.Rule("R6", "pre-dispatch code cannot panic: no explicit panic is reachable (flag-sensitively) in request processing or the library functions it calls before the dispatcher's recover is installed", 2)
 	r.Rule("R7", "requests are not parked on an orphaned work item (shared with C01.H1): the group registry is re-created before the workers of each run and the service is declared stopped only after all workers exited; otherwise, after a Shutdown with queued work and a restart, every request for that resource is appended to a work item no worker will run and is never answered", 2)
 	r.Rule("R8", "one delivery per request (shared with C09.S3): the loop that subscribes to get/call/auth subjects skips subjects covered by another subscribed subject, judged after the method wildcard was appended; two overlapping subscriptions deliver a request twice and it is answered twice", 1)
+	r.Rule("R9", "no queued request is dropped (shared with C02.Q3): the service work queue is only ever tail-appended, head-dropped ([1:] of itself, or reset to the empty buffer prefix when exactly one item is queued), initialised and closed; any other store (a bounded copy, a truncation) can discard queued work items under a burst, and the requests they hold are never answered", 5)
 	r.Rule("R5", "every handler call (dynamic call passing a request object) lies in a function that defers a recover closure in its entry block", 3)
 
 	models := c04Models(r, "R0")
 	root := p.FuncsOfPkg("")
 	if sa, se := queueEngine(r, "R7"); se != nil {
 		c01Restart(r, "R7", sa, root)
+		c02WorkQueueShape(r, "R9", sa, root)
 	}
 	coveringRule(r, "R8")
 
@@ -208,10 +210,25 @@ func c04(r *core.Run) {
 				}
 				return ""
 			}
+			exemptEdgeWhy := dispatchExemptEdge(tn)
 			m.exemptRet = exemptWhy
 			m.Exempted = map[*ssa.Return]string{}
 			res := m.flow(d, core.StateSet(0).Add(stNo))
 			m.exemptRet = nil
+			var resE *core.FlowResult // computed on demand: flow with edge exemptions
+			edgeFlow := func() *core.FlowResult {
+				if resE == nil {
+					m.exemptEdge = exemptEdgeWhy
+					m.ExemptedEdges = map[edgeCond]string{}
+					resE = m.flow(d, core.StateSet(0).Add(stNo))
+					m.exemptEdge = nil
+					for e, why := range m.ExemptedEdges {
+						r.ExemptObl("R1", dn, "edge:"+describeCond(e), p.InstrPos(e.If), why)
+					}
+					m.ExemptedEdges = nil
+				}
+				return resE
+			}
 			for ret, why := range m.Exempted {
 				var conds []string
 				for _, e := range dominatingEdges(ret) {
@@ -240,6 +257,8 @@ func c04(r *core.Run) {
 					r.OK("R1", dn, "return:"+desc, p.InstrPos(ret), "state=Yes on every path to this return")
 				case exempt != "":
 					r.ExemptObl("R1", dn, "return:"+desc, p.InstrPos(ret), exempt)
+				case d.Recover != nil && edgeFlow().Before[ret].Only(stYes):
+					r.OK("R1", dn, "return:"+desc, p.InstrPos(ret), "state=Yes on every path to this return except those through the exempt edges listed for this dispatcher")
 				case callersComplete(m, root, d):
 					r.OK("R1", dn, "return:"+desc+":completed-by-every-caller", p.InstrPos(ret), "state="+stateStr(st)+" here, but every caller of this handler-runner reaches state Yes on all of its returns (missing-response tail lives in the caller)")
 				default:
@@ -504,6 +523,25 @@ func returnDesc(ret *ssa.Return, conds []string) string {
 		conds = conds[len(conds)-6:]
 	}
 	return strings.Join(conds, "&")
+}
+
+// dispatchExemptEdge gives the documented reasons for which a dispatcher may
+// leave a request unanswered, attached to a branch edge (for a dispatcher
+// written with a single exit the reasons cannot be read off a return).
+func dispatchExemptEdge(tn string) func(edgeCond) string {
+	return func(e edgeCond) string {
+		conds := []string{describeCond(e)}
+		for _, de := range dominatingEdges(e.If) {
+			conds = append(conds, describeCond(de))
+		}
+		if conds[0] == "Handler.Access==nil" {
+			return "access request to a pattern registered without an access handler is left unanswered (stated in the property)"
+		}
+		if tn == "Request" && isUnknownTypeReturn(conds) && len(conds) >= 4 {
+			return "request type is none of the dispatched constants; such a subject is never subscribed (C05.D1 checks the two sets agree)"
+		}
+		return ""
+	}
 }
 
 func isUnknownTypeReturn(conds []string) bool {
